@@ -532,6 +532,7 @@ class C05Check(PoolCheckBase):
             op["caller_fits"] = bool(op["prefit"]) or g.chance(0.25)
             if "sample_weight" in ps and g.chance(0.4):
                 op["sw"] = [round(g.uniform(0.1, 2.0), 3) for _ in range(n)]
+                op["sw_nan"] = g.chance(0.3)
             if "utility_weight" in ps and g.chance(0.4):
                 op["uw"] = [round(g.uniform(0.1, 2.0), 3) for _ in range(n)]
             r = g.random()
@@ -601,6 +602,9 @@ class C05Check(PoolCheckBase):
             kw = {}
             if isinstance(op.get("sw"), list) and "sample_weight" in w.params:
                 kw["sample_weight"] = np.resize(np.array(op["sw"], dtype=float), n)
+                if op.get("sw_nan"):
+                    # the weight of an unlabeled sample is irrelevant; callers often leave it undefined
+                    kw["sample_weight"][np.isnan(y)] = np.nan
             if op.get("cand") == "idx":
                 kw["candidates"] = unl[:: 2 if len(unl) > 2 else 1].copy()
             elif op.get("cand") == "rows":
